@@ -18,6 +18,9 @@ pub struct LogStore {
     pub inner: Box<dyn Storage>,
     pub log: Arc<Mutex<Vec<&'static str>>>,
     pub faults: Arc<Mutex<Faults>>,
+    /// an external SQLite connection holding the write lock; released (dropped) as soon as the
+    /// next `txn()` call returns, whatever it returns
+    pub lock_until_begin: Arc<Mutex<Option<rusqlite::Connection>>>,
 }
 
 /// what to do with the current storage call: None = go ahead, Some(after)
@@ -38,7 +41,7 @@ fn injected() -> anyhow::Error {
 
 impl LogStore {
     pub fn new<S: Storage + 'static>(s: S) -> Self {
-        LogStore { inner: Box::new(s), log: Arc::new(Mutex::new(Vec::new())), faults: Arc::new(Mutex::new(Faults::default())) }
+        LogStore { inner: Box::new(s), log: Arc::new(Mutex::new(Vec::new())), faults: Arc::new(Mutex::new(Faults::default())), lock_until_begin: Arc::new(Mutex::new(None)) }
     }
     /// fail the given storage calls (index counted from the next call on; begin counts)
     pub fn set_plan(&self, plan: Vec<(usize, bool)>) {
@@ -75,7 +78,12 @@ impl Storage for LogStore {
             }
             None => {}
         }
-        let t = self.inner.txn(client_id)?;
+        let t = self.inner.txn(client_id);
+        if let Some(c) = self.lock_until_begin.lock().unwrap().take() {
+            let _ = c.execute_batch("ROLLBACK");
+            drop(c);
+        }
+        let t = t?;
         Ok(Box::new(LogTxn { inner: Some(t), log: self.log.clone(), faults: self.faults.clone() }))
     }
 }
